@@ -25,7 +25,9 @@ def case(g, tier, ci):
     subs = 0.0 if seqx else (0.2 if r.random() < 0.5 else 0.0)
     N = r.randint(2400, 2420) if seqx else None
     # 12%: the sequence's own sample rate differs from its elements' (still consistent)
-    factor = r.choice([2, 10]) if (r.random() < 0.12 and subs == 0.0) else 1
+    # the sequence's own rate: equal to its elements', a multiple, or a fraction (a delay that is whole in element
+    # samples need not be whole in sequence samples)
+    factor = r.choice([2, 10, 0.5, 0.1]) if (r.random() < 0.2 and subs == 0.0) else 1
     ops, info = sg.sequence("s", npos=(1, 3), nch=(1, 4), SR=SR, N=N, raw_p=0.3, kinds=("ramp", "sine") if not seqx else ("ramp",),
                             flags_p=0.1, delays_p=0.0, filters_p=0.0, sub_p=subs, waits=0.3, amp=100, seq_p=0.1,
                             seq_sr_factor=factor)
